@@ -1,0 +1,10 @@
+//go:build verif
+
+package util
+
+// ResetUniqueNamesForVerif forgets the names handed out so far, as a new hz process would.
+func ResetUniqueNamesForVerif() {
+	uniquePackageName = map[string]bool{}
+	uniqueMiddlewareName = map[string]bool{}
+	uniqueHandlerPackageName = map[string]bool{}
+}
